@@ -24,10 +24,10 @@ def run(rep, tier, seed, budget):
     total = budget or (80 if quick else 1200)
     t_end = time.time() + total
 
-    def dec_level(N):
+    def dec_level(N, fixed=None):
         def path(eng, col):
             ctx.reset()
-            toks = make_tokens("t", N, A17)
+            toks = fixed if fixed is not None else make_tokens("t", N, A17)
             r0 = dech.run_decoder(ctx, TokStr(toks))
             ctx.reset()
             r1 = dech.run_decoder(ctx, TokStr(toks), attribute=True)
@@ -139,12 +139,22 @@ def run(rep, tier, seed, budget):
                 return False
         return True
 
-    plan = [("dec", n) for n in ((1, 2, 3, 4) if quick else (1, 2, 3, 4, 5, 6))]
+    TRI = ["[C]", "[C]", "[C]", "[Ring1]", "[Ring1]"]
+
+    def many_rings(eng, col):
+        k = int(fresh_int("pre_rings", 8, 10))
+        toks = TRI * k + make_tokens("t", 3, ["[C]", "[N]", "[Ring1]", "[Branch1]", "[=C]", "[nop]", "."]) + TRI + ["[O]"]
+        dec_level(0, toks)(eng, col)
+
+    plan = [("many", 0)] + [("dec", n) for n in ((1, 2, 3, 4) if quick else (1, 2, 3, 4, 5, 6))]
     plan += [("enc", n) for n in ((1, 2, 3) if quick else (1, 2, 3, 4))]
     plan += [("tpl", i) for i in range(len(TEMPLATES))]
     for kind, n in plan:
         left = t_end - time.time()
-        if kind == "dec":
+        if kind == "many":
+            name = "decoder, 8-10 three-membered rings + 3 free symbols + one more ring (two-character ring labels %10, %11 in the output)"
+            fn, bounds = many_rings, {"prefix": "8..10 x [C][C][C][Ring1][Ring1]", "free": "3 symbols over 7", "table": "default"}
+        elif kind == "dec":
             name = "decoder N=%d: attribute=True vs plain, output/input indices, every atom attributed" % n
             fn, bounds = dec_level(n), {"alphabet": A17, "N_symbols": n, "table": "default"}
         elif kind == "enc":
